@@ -6,6 +6,8 @@ props = [json.loads(l) for l in open(os.path.join(VERIF, "properties.jsonl"))]
 sys.path.insert(0, VERIF)
 from lib.claims import CLAIMS, NOT_APPLICABLE  # noqa
 
+import subprocess
+HOOK_COMMITS = subprocess.run(["git", "-C", "/repo", "log", "--grep", "^verif hook", "--format=%h"], capture_output=True, text=True).stdout.split()
 checks = []
 for p in props:
     pid = p["id"]
@@ -28,8 +30,10 @@ na = [{"property_id": p["id"], "reason": NOT_APPLICABLE.get(p["id"], "check not 
 m = {
     "version": 1,
     "setup_cmd": "./setup.sh",
-    "hooks": {"guard": "gufo_snmp_verif", "enable": "none needed: harness crates include /repo/src files via #[path]; no source hooks exist",
-              "baseline_off_cmd": "cd /repo && cargo test --workspace --no-fail-fast --offline", "source_commits": [], "add_only": True},
+    "hooks": {"guard": "gufo_snmp_verif",
+              "enable": "the generated harness crates (.cache/hk-*) carry a build.rs printing cargo:rustc-cfg=gufo_snmp_verif and include /repo/src files via #[path]; hooks: Buffer capacity 160 instead of 4080 (src/buf/buffer.rs), read accessors to the v3 session state (src/socket/v3.rs). The `full` profile builds with the guard off.",
+              "baseline_off_cmd": "cd /repo && cargo test --workspace --no-fail-fast --offline",
+              "source_commits": HOOK_COMMITS, "add_only": True},
     "engines": [
         {"name": "kani", "path": "/verif/check", "serves_properties": [c["property_id"] for c in checks if c["engine"] in ("kani", "kani+crosshair")],
          "kind_free_text": "Kani 0.68 -> CBMC 6.11 -> CaDiCaL: bounded symbolic execution of /repo/src compiled from the working tree; SAT verdict over all inputs inside the stated bound"},
